@@ -57,3 +57,25 @@ Example C06_nonvacuous :
              (fml_register (mkPI 5 1) 65536000000000 [] hh a 0)
              (mkHeader 0 2 1 0 false false false false false false false false false false false false 0 src 1 0) a 0) = 1%nat).
 Proof. vm_compute. repeat split; constructor. Qed.
+
+(** C06_walk_main: for every valid set-up and EVERY valid event list the walk
+    conjunct of the oracle ok_C06 (everything but the liveness scan over steady
+    histories) accepts the model's own trace: after a BMCA run a port is slave of
+    a parent only if at least two Announces of that parent (other clock identity,
+    acceptable, stepsRemoved < 255, own domain) arrived on it within the
+    foreign-master time window, counted in BMCA runs; it becomes passive by BMCA
+    only with some such master or within one announce interval of an own-identity
+    Announce from a lower-numbered port; and no call outside a BMCA run makes a
+    port slave.  The proof couples every stored foreign-master record with the
+    arrivals: for every threshold t, the stored Announces of a master younger than
+    t are at most as many as its arrivals younger than t (MainC06.dom), through
+    registration, the take / put-back of the best message and ageing; interval
+    arithmetic is exact for log intervals in [-7, 7].  [ok_C06 c] implies
+    [walk_C06 c]; the steady-master liveness half is evaluated on traces only. *)
+From SV Require Import Port.MainC06.
+Theorem C06_walk_main : forall s es rel,
+  setup_valid s -> Forall event_valid es ->
+  exists i o, init s = Ok (i, o) /\ walk_C06 (mkCase s es rel (Some o) (run i es)) = true.
+Proof. exact walk_C06_main. Qed.
+Theorem C06_oracle_implies_walk : forall c, ok_C06 c = true -> walk_C06 c = true.
+Proof. exact ok_C06_walk. Qed.
